@@ -149,6 +149,90 @@ def run_art(cid, ctx, runs):
     }
 
 
+def _parse_lists(s):
+    if s == "":
+        return []
+    if s == "-":
+        return [[]]
+    return [[int(t) for t in part.split(",")] if part else [] for part in s.split(";")]
+
+
+def _fmt_lists(g):
+    if len(g) == 1 and not g[0]:
+        return "-"
+    return ";".join(",".join(str(x) for x in l) for l in g)
+
+
+def shrink_art(cid, case, budget=40):
+    """Greedy shrinking of a failing "art" case: drop trailing nodes, then single arcs,
+    re-running implementation (harness replay mode) and model on every candidate."""
+    if case.get("_chan") != "art" or case.get("path", "").startswith("cli_") or case.get("path") == "dataset":
+        return None
+    g = _parse_lists(case.get("g", ""))
+    cuts = [int(x) for x in case.get("cuts", "0").split(",") if x != ""]
+    tmp = os.path.join(vlib.RUNS, "shrink_%s.cases" % cid)
+    out = os.path.join(vlib.RUNS, "shrink_%s.out" % cid)
+
+    def attempt(g2, cuts2):
+        toks = []
+        for t in case["_line"].split(" "):
+            if t.startswith("g="):
+                t = "g=" + _fmt_lists(g2)
+            elif t.startswith("n="):
+                t = "n=%d" % len(g2)
+            elif t.startswith("cuts="):
+                t = "cuts=" + ",".join(str(c) for c in cuts2)
+            elif t.startswith(("graph=", "offsets=", "props=")):
+                t = t.split("=")[0] + "="
+            toks.append(t)
+        open(tmp, "w").write(" ".join(toks) + "\n")
+        try:
+            vlib.run_harness(["art", "--mode", "replay:" + tmp], out, timeout=120)
+            order, cases, impl = vlib.read_cases(out)
+            results, _ = vlib.run_driver(out, timeout=120)
+        except Exception:
+            return None
+        if not order:
+            return None
+        c2 = cases[order[0]]
+        res = results[0] if results else {"error": "none"}
+        of, cf, rf = evaluate(cid, c2, impl.get(order[0], {}), res)
+        return (c2, of) if of else None
+
+    best = None
+    used = 0
+    # 1. fewer nodes (arcs to removed nodes are dropped)
+    k = len(g)
+    while k > 1 and used < budget:
+        k2 = k // 2 if k > 4 else k - 1
+        g2 = [[y for y in l if y < k2] for l in g[:k2]]
+        cuts2 = sorted(set(min(c, k2) for c in cuts)) if len(cuts) > 2 else [0, k2]
+        if len(cuts2) < 2:
+            cuts2 = [0, k2]
+        used += 1
+        r = attempt(g2, cuts2)
+        if r:
+            g, cuts, best, k = g2, cuts2, r, k2
+        elif k2 == k - 1:
+            break
+        else:
+            k = k2 + (k - k2) // 2 if (k - k2) > 1 else k2  # try a smaller cut next
+            if k == k2:
+                break
+    # 2. fewer arcs
+    for x in range(len(g)):
+        for y in list(g[x]):
+            if used >= budget:
+                break
+            g2 = [list(l) for l in g]
+            g2[x].remove(y)
+            used += 1
+            r = attempt(g2, cuts)
+            if r:
+                g, best = g2, r
+    return best
+
+
 def verdict(cid, r, known_matchers=(), search=None):
     """Turns failures into violations / known findings.  A correspondence failure without
     an oracle failure anywhere in the run triggers `search` (more generated cases, other
@@ -174,7 +258,17 @@ def verdict(cid, r, known_matchers=(), search=None):
             if matched not in known:
                 known.append(matched)
             continue
-        rp = vlib.write_replay(cid, cidx, "# failing aspects: %s\n%s\n" % (", ".join(of), case["_line"]))
+        shrunk = None
+        if not violations:
+            try:
+                shrunk = shrink_art(cid, case)
+            except Exception:
+                shrunk = None
+        if shrunk:
+            rp = vlib.write_replay(cid, cidx, "# failing aspects (shrunk case): %s\n%s\n# original case, failing aspects: %s\n# %s\n"
+                                   % (", ".join(shrunk[1]), shrunk[0]["_line"], ", ".join(of), case["_line"][:2000]))
+        else:
+            rp = vlib.write_replay(cid, cidx, "# failing aspects: %s\n%s\n" % (", ".join(of), case["_line"]))
         violations.append(("implementation violates %s on case %s: %s" % (cid, cidx, ", ".join(of)[:300]), rp, False))
         if len(violations) >= 5:
             break
